@@ -7,6 +7,7 @@ import (
 	"encoding/json"
 	"fmt"
 	"math"
+	"sync"
 	"testing"
 
 	"github.com/bokysan/socketace/v2/internal/util/enc"
@@ -120,7 +121,7 @@ func TestVerifC08(t *testing.T) {
 		fam string
 	}
 	var items []item
-	fams := []string{"exh0-2a", "exh0-2b", "exh0-2c", "exh0-2d", "structured", "random", "bits"}
+	fams := []string{"exh0-2a", "exh0-2b", "exh0-2c", "exh0-2d", "structured", "random", "bits", "concurrent"}
 	for _, ci := range codecs {
 		for _, f := range fams {
 			items = append(items, item{ci, f})
@@ -190,6 +191,39 @@ func TestVerifC08(t *testing.T) {
 					c.check("single-zero-bit", b)
 				}
 			}
+		case "concurrent":
+			// the codec objects are process-wide singletons used by every session's goroutines at once:
+			// the same oracle with 8 goroutines going through the shared object simultaneously
+			if c.ci.raw {
+				break
+			}
+			var wg sync.WaitGroup
+			for g := 0; g < 8; g++ {
+				wg.Add(1)
+				go func(g int) {
+					defer wg.Done()
+					rng := vcommon.NewRand(rec.Seed(), fmt.Sprintf("c08conc/%s/%d", c.name, g))
+					for k := 0; k < rec.Pick(3000, 12000); k++ {
+						in := make([]byte, rng.Intn(300))
+						rng.Read(in)
+						var back []byte
+						var derr error
+						panicked, site, val := vcommon.Guard(func() { back, derr = c.e.Decode(c.e.Encode(in)) })
+						rec.Case(fmt.Sprintf("conc/%s/%d/%d", c.name, g, k), true)
+						d := caseDesc{Codec: c.name, Gen: fmt.Sprintf("concurrent(8 goroutines) len=%d", len(in)), Hex: hex.EncodeToString(in)}
+						switch {
+						case panicked:
+							rec.Violation(fmt.Sprintf("%s:concurrent-use:panic@%s", c.name, site), d, val)
+						case derr != nil:
+							rec.Violation(c.name+":concurrent-use:roundtrip-error", d, derr.Error())
+						case !bytes.Equal(back, in):
+							rec.Violation(c.name+":concurrent-use:roundtrip-diff", d, map[string]string{"decoded_hex": hex.EncodeToString(clip(back))})
+						}
+					}
+				}(g)
+			}
+			wg.Wait()
+			rec.Stat("concurrent_roundtrips", int64(8*rec.Pick(3000, 12000)))
 		case "random":
 			rng := vcommon.NewRand(rec.Seed(), "c08/"+c.name)
 			for l := 0; l <= maxLen; l++ {
